@@ -4,6 +4,7 @@ SPEC = {
     "drivers": [
         {"pkg": "internal/corerad", "test": "TestVerifC10TD", "newgo": True, "timeout": 1500, "corr_module": "Corr.C10td"},
         {"pkg": "internal/corerad", "test": "TestVerifC10RX", "newgo": True, "timeout": 1500, "corr_module": "Corr.C10td"},
+        {"pkg": "internal/system", "test": "TestVerifC10dial", "newgo": True, "timeout": 1500, "corr_module": "Corr.C10dial"},
     ],
     "rule": "(a) every fault class {read error: syscall / permission / other, 5 consecutive timeouts, failing scheduled write: "
             "syscall / permission / other, link event, watcher channel closed} injected into a running Advertiser and Monitor "
@@ -13,7 +14,7 @@ SPEC = {
             "connection afterwards, a canary solicitation, leaked goroutines. (b) scripts of timeouts / messages / errors read by "
             "a Monitor: the instants of its ReadFrom calls give the back-off waits. (c) Dialer.Dial with scripted dial and task "
             "outcomes (Corr.C10dial). Non-trivial: any case (each injects a fault or a timeout run); distinct by input.",
-    "nontrivial": lambda c: True,
+    "nontrivial": lambda c: c.get("_driver") != "TestVerifC10dial" or len(c.get("observed") or []) > 3,
     "trusted": ["the goroutine-group LTS (Model/Group.v) is tied to the code by the five extracted guards only (gen/ExtGroup.v: select cases next to <-ctx.Done(), ws.stop() before returns, cancel() before eg.Wait()) and by the fault-injection runs; its atomic steps are the blocking points",
                 "a WriteTo call in progress eventually returns (internal step of the LTS)"],
     "assumptions": ["fairness: the Go scheduler eventually runs an enabled goroutine; the LTS theorem is over every interleaving but assumes enabled internal steps are eventually taken"],
